@@ -499,3 +499,25 @@ Proof.
   - apply IHl, (inrange_app_l n _ _ HR).
   - apply IHr, (inrange_app_r n _ _ HR).
 Qed.
+
+Lemma nodup_b_sound l : nodup_b l = true -> NoDup l.
+Proof.
+  induction l as [|x l IH]; cbn [nodup_b]; intros H; [constructor|].
+  apply andb_true_iff in H. destruct H as [H1 H2]. constructor; [|apply IH, H2].
+  apply negb_true_iff, memb_false in H1. exact H1.
+Qed.
+Lemma set_eqb_sound a b : set_eqb a b = true -> forall j, In j a <-> In j b.
+Proof.
+  unfold set_eqb. intros H j. apply andb_true_iff in H. destruct H as [H1 H2].
+  rewrite forallb_forall in H1, H2. split; intros Hj.
+  - apply memb_In, H1, Hj.
+  - apply memb_In, H2, Hj.
+Qed.
+Lemma admissible_b_sound n sl io t : admissible_b n sl io t = true -> admissible n sl io t.
+Proof.
+  induction t as [k|l IHl r IHr]; cbn [admissible_b admissible]; intros H; [exact I|].
+  repeat (apply andb_true_iff in H; destruct H as [H ?]).
+  repeat split; auto using nodup_b_sound.
+  - apply (set_eqb_sound _ _ H2).
+  - apply (set_eqb_sound _ _ H2).
+Qed.
